@@ -1088,6 +1088,17 @@ pub fn m11(ix: &Index, include_converse: bool) -> Vec<Violation> {
             }
         }
     }
+    // connection-closed handling must not fail: both drivers leave their event loop for good when it does
+    // ("... or abort its event loop"); closes that follow a reset (client closed) are outside this rule
+    if ix.reset_ev.is_none() {
+        for e in &tr.evs {
+            if let Ev::Call { kind: CallKind::Close, result: Err(k), msg, before, conn, .. } = e {
+                if *before != EState::Disconnected {
+                    out.push(v("C11.close_failed", format!("connection-closed handling returns an error ({:?}); the drivers' event loop would exit", k), format!("conn {:?} state before {:?}: {}", conn, before, msg)));
+                }
+            }
+        }
+    }
     // protocol violations must be reported as a connection error
     let n = tr.evs.len();
     for i in 0..n {
